@@ -4,6 +4,7 @@ set -e
 cd "$(dirname "$0")/.."
 export CARGO_NET_OFFLINE=true
 python3 tools/extract.py
+python3 tools/rs2lean.py /repo lean/Plonk/GeneratedWidgets.lean
 python3 tools/gen_dispatch.py harness/src/dispatch.rs
 (cd lean && lake build Plonk driver)
 (cd harness && cp -n /repo/Cargo.lock Cargo.lock 2>/dev/null || true; cargo build --offline --release && cargo build --offline --profile checked)
